@@ -84,6 +84,10 @@ func (xp xpathImpl) resolveOperator(oper *xpath.Operator, ident string, s *Selec
 	if err != nil {
 		return false, err
 	}
+	if a == nil {
+		// no value, nothing to compare: no comparison holds
+		return false, nil
+	}
 	switch oper.Oper {
 	case "=":
 		return val.Equal(a, b), nil
